@@ -168,6 +168,8 @@ def compare(got, exp, F, name, out, hyps=()):
             if k.startswith("__ghost"):
                 continue
             if k not in got.fields or k not in exp.fields:
+                if k in got.fields and k in getattr(got, "cf", {}):
+                    continue        # a cache field completed by Interp.complete_fixture: judged by contract.cache_coherence
                 if k in got.fields and k.startswith("_"):
                     # a private field the contract does not know (a cache added by the code): an empty one carries no
                     # information; one that holds a value is neither right nor wrong by this contract -- undecided, and the
